@@ -439,7 +439,7 @@ def prove(hyps, goal, timeout_ms=10000, seed=0, use_cvc5=True, both=False, quick
     if r == z3.unsat:
         out['status'] = 'proved'
         if both and os.path.exists(CVC5):
-            out['cvc5'] = run_cvc5(s.to_smt2().replace('(check-sat)', ''), 60)
+            out['cvc5'] = run_cvc5(s.to_smt2().replace('(check-sat)', ''), 15)
         return out
     if r == z3.sat:
         out['status'] = 'refuted'
